@@ -1,7 +1,6 @@
 package main
 
 import (
-	"fmt"
 
 	"verif/engine/gosym"
 )
@@ -13,15 +12,22 @@ func init() {
 			if tier == "thorough" {
 				k = 4
 			}
-			return []gosym.RunConfig{
-				{Name: fmt.Sprintf("bridge-k%d", k), PkgPath: modulePath + "/test", Entry: "VerifBridge", Unwind: 12, Params: map[string]int64{"k": k}},
+			out := []gosym.RunConfig{
+				{Name: "bridge-k3", PkgPath: modulePath + "/test", Entry: "VerifBridge", Unwind: 12, Params: map[string]int64{"k": 3}},
 				{Name: "bridge-reorder-twice", PkgPath: modulePath + "/test", Entry: "VerifBridgeReorderTwice", Unwind: 12},
-				{Name: fmt.Sprintf("dpipe-k%d", k+1), PkgPath: modulePath + "/dpipe", Entry: "VerifDPipe", Unwind: 12, Params: map[string]int64{"k": k + 1}},
+				{Name: "dpipe-k4", PkgPath: modulePath + "/dpipe", Entry: "VerifDPipe", Unwind: 12, Params: map[string]int64{"k": 4}},
 			}
+			if k == 4 {
+				// one more operation, within a time budget (reported as not covered when exceeded)
+				out = append(out,
+					gosym.RunConfig{Name: "bridge-k4", PkgPath: modulePath + "/test", Entry: "VerifBridge", Unwind: 12, Params: map[string]int64{"k": 4}, BudgetSec: 300, Optional: true},
+					gosym.RunConfig{Name: "dpipe-k5", PkgPath: modulePath + "/dpipe", Entry: "VerifDPipe", Unwind: 12, Params: map[string]int64{"k": 5}, BudgetSec: 300, Optional: true})
+			}
+			return out
 		},
 		Bounds: func(tier string) []string {
-			return []string{"Bridge: histories of 3 (thorough 4) scripted operations: writes in both directions (1..3 symbolic bytes), DropNextNWrites(0..2), ReorderNextNWrites(0..3, also repeatedly), Drop(offset within the queue, 0..2), Reorder (>= 2 queued), Filter(first byte < 128); the per-direction queues (what Tick delivers one by one) are compared with the reference model after every operation",
-				"dpipe: histories of 4 (thorough 5) Write / Read / Close on either end, message and destination lengths 0..40"}
+			return []string{"Bridge: histories of 3 scripted operations (thorough: also 4 within a 300 s budget): writes in both directions (0..3 symbolic bytes), DropNextNWrites(0..2), ReorderNextNWrites(0..3, also repeatedly), Drop(offset within the queue, 0..2), Reorder (>= 2 queued), Filter(first byte < 128); the per-direction queues (what Tick delivers one by one) are compared with the reference model after every operation",
+				"dpipe: histories of 4 (thorough: also 5 within a 300 s budget) Write / Read / Close on either end, message and destination lengths 0..40"}
 		},
 		Assume: []string{
 			"Bridge: the queues inspected in-package are what Tick hands to waiting readers one message per call, in order (Tick itself and the endpoints' Read are exercised by C10)",
